@@ -45,6 +45,9 @@ pub fn registry() -> Vec<(&'static str, &'static str, MonFn)> {
         ("c02_deep", "C02", deep::connectives as MonFn),
         ("c04_deep", "C04", deep::quant as MonFn),
         ("c09_deep", "C09", deep::sets as MonFn),
+        ("c15_large", "C15", deep::dddmp_large as MonFn),
+        ("c02_wide", "C02", deep::wide_connectives as MonFn),
+        ("c04_wide", "C04", deep::wide_quant as MonFn),
         ("c03_hist", "C03", c03::histories as MonFn),
         ("c05_hist", "C05", c05::histories as MonFn),
         ("c05_bg", "C05", c05::background_gc as MonFn),
